@@ -48,11 +48,12 @@ ORBIT_CLASSES = {
     "MEO": (8.0e6, 3.0e7, 1e-3, 0.3),
     "GTO": (2.4e7, 2.5e7, 0.6, 0.73),
     "GEO": (4.2e7, 4.23e7, 1e-3, 0.01),
+    "HYP": (6.8e6, 3.0e7, 1.1, 2.0),  # fly-by: the first two numbers bound the pericentre radius
 }
 STATE_FORMS = ["cartesian", "keplerian", "spherical", "equinoctial", "keplerian_mean"]
 
 RULE = (
-    "case = one orbit (class LEO/MEO/GTO/GEO, random orientation/anomaly, date in the IERS tables), one attachment "
+    "case = one orbit (class LEO/MEO/GTO/GEO/hyperbolic fly-by, random orientation/anomaly, date in the IERS tables), one attachment "
     "frame of the 7 non-rotating ones, one random SPD 6x6 (condition number up to 1e12, sigma_pos 1 m..10 km, "
     "sigma_vel/sigma_pos 1e-4..1e-2 1/s) and a set of frame histories (all 144 two-hop sequences, or random "
     "sequences of length 1..5, each hop driven by cov.frame=, Cov.copy(frame=), orb.frame= or a mixture); "
@@ -166,6 +167,9 @@ def gen_case(rng, idx):
     e = rng.uniform(e0, e1)
     inc = rng.choice([rng.uniform(0.05, 1.2), rng.uniform(1.2, 1.9), rng.uniform(1.9, 3.09)]) if oc != "GEO" else rng.uniform(0.01, 0.2)
     raan, argp, nu = (rng.uniform(0, 2 * math.pi) for _ in range(3))
+    if oc == "HYP":
+        a = -a / (e - 1)  # a < 0, pericentre radius = the drawn length
+        nu = rng.uniform(-1.5, 1.5)  # well inside the asymptotes (acos(-1/e) >= 2.7 rad)
     r, v = el.kep2cart(a, e, inc, raan, argp, nu, MU_EARTH)
     start = START[(idx // len(ORBIT_CLASSES)) % len(START)]
     # date inside the real IERS tables (MJD 41684..57802), microsecond grid
@@ -174,7 +178,7 @@ def gen_case(rng, idx):
     usec = rng.randrange(0, 86400 * 10 ** 6)
     date = Date(day, 0.0) + timedelta(microseconds=usec)
     C, cd = cr.random_spd(rng)
-    form = rng.choice(STATE_FORMS)
+    form = rng.choice(STATE_FORMS if oc != "HYP" else ["cartesian", "spherical", "keplerian"])
     descr = dict(orbit_class=oc, a=a, e=e, i=inc, raan=raan, argp=argp, nu=nu, start=start, mjd_day=day, usec=usec,
                  state_form=form, **cd)
     return dict(r=r, v=v, start=start, date=date, C=C, form=form, descr=descr, oc=oc)
